@@ -596,8 +596,8 @@ theorem checkAt_of {code : Code} {cert : Cert} (h : checkStk code cert = true) {
   | none => rw [hfs] at hp; simp at hp
   | some fs =>
     rw [hfs] at hp
-    simp only [Bool.and_eq_true, List.all_eq_true] at hp
-    apply hp.1
+    simp only [List.all_eq_true] at hp
+    apply hp
     cases base with
     | none =>
       have : f = 0 := hc.2.2.1
@@ -776,8 +776,8 @@ theorem checkAt_zero {code : Code} {cert : Cert} (h : checkStk code cert = true)
   | none => rw [hfs] at hp; simp at hp
   | some fs =>
     rw [hfs] at hp
-    simp only [Bool.and_eq_true, List.all_eq_true] at hp
-    exact hp.1 0 (floorsOf_zero hfs)
+    simp only [List.all_eq_true] at hp
+    exact hp 0 (floorsOf_zero hfs)
 
 theorem recLoop_certified {code : Code} {cert : Cert} (h : checkStk code cert = true) {t : Nat}
     (ht : code[t]? = some (.pushLoop true)) :
@@ -937,7 +937,7 @@ theorem step_inv {code : Code} {cert : Cert} (h : checkStk code cert = true) {s 
       have hc' : Cur code cert base A s.stack (false :: L) f := by rw [← hlp]; exact hc
       exact ⟨⟨C, base, f, hlC, cur_pop hc' hA hle hloops hc.2.1, hbs⟩, htail⟩
     · cases he
-  | @popLoopRet L sv rest r hi hlp hst hsv hr =>
+  | @popLoopRet L sv rest r hi hlp hsv hr =>
     rw [hsv] at htail
     exact htail r hr
   | @jump t hi =>
@@ -1019,24 +1019,6 @@ theorem GamS_length_pos {x : AE} {xs : List AE} {st : List Cell} (g : GamS (x ::
   obtain ⟨cs, rest, rfl, ga, _⟩ := GamS_cons_inv g
   cases ga <;> simp
 
-/-- a recursive loop is left exactly at its floor -/
-theorem popLoop_floor {code : Code} {cert : Cert} (h : checkStk code cert = true) {pc : Nat} {A : Abs}
-    (hl : look cert pc = some A) (hi : code[pc]? = some .popLoopFrame) {t : Nat} {L : List Nat}
-    (hA : A.loops = t :: L) (hr : isRecLoop code t = true) : floorOf cert t = some A.stk.length := by
-  have hp := checkPc_of h hl
-  unfold checkPc at hp
-  rw [hl] at hp
-  simp only at hp
-  cases hfs : floorsOf code cert A.loops with
-  | none => rw [hfs] at hp; simp at hp
-  | some fs =>
-    rw [hfs] at hp
-    simp only [Bool.and_eq_true] at hp
-    have := hp.2
-    rw [hi, hA] at this
-    simp only [hr, if_true, decide_eq_true_eq] at this
-    exact this
-
 /-- in every state the invariant describes, the instruction about to execute does not panic -/
 theorem inv_pre {code : Code} {cert : Cert} (h : checkStk code cert = true) {s : State}
     (hinv : Inv code cert s) {i : Instr} (hi : code[s.pc]? = some i) : pre i s = true := by
@@ -1089,15 +1071,8 @@ theorem inv_pre {code : Code} {cert : Cert} (h : checkStk code cert = true) {s :
           cases inner with
           | cons w inner' => rw [hlp]; simp [List.replicate_succ]
           | nil =>
-            simp only [List.nil_append] at hloops
             rw [hlp]
             simp only [List.length_nil, List.replicate_zero, List.nil_append]
-            have hfl := popLoop_floor h hl hi hloops hr
-            rw [hf] at hfl
-            simp only [Option.some.injEq] at hfl
-            have hnil : hi' = [] := by rw [← hhi, hfl]; simp
-            rw [hnil] at g
-            rw [GamS_nil_inv g]
             cases hsv : s.saved with
             | nil => rw [hsv] at hbs; simp at hbs
             | cons _ _ => simp
